@@ -74,6 +74,45 @@ def renderSeen (ms : List Msg) : String :=
   let ol := sortStr ((ms.filter (·.old)).map renderMsg)
   if fl.isEmpty && ol.isEmpty then "-" else ",".intercalate (fl ++ ol)
 
+/-! ### Keyed readers `Message(key)` / `OldInput(key)`
+
+The specification of the keyed readers is given through the list readers: `Message(k)` is the first
+entry of `Messages()` with key `k` (for an attached chain: the one message `expectedFlash` holds for
+`k`), `OldInput(k)` the first entry of `OldInputs()` with key `k`; the zero value when there is none.
+An entry of the OTHER kind with the same key never hides it. -/
+
+/-- what `Message(k)` must return when the handler must see `expected` -/
+def specMessage (expected : List Msg) (k : Bytes) : Bytes × Bytes × Nat :=
+  match (expected.filter (!·.old)).find? (·.key = k) with
+  | some m => (m.key, m.value, m.level)
+  | none => ([], [], 0)
+
+/-- what `OldInput(k)` must return when the handler must see `expected` -/
+def specOldInput (expected : List Msg) (k : Bytes) : Bytes × Bytes :=
+  match (expected.filter (·.old)).find? (·.key = k) with
+  | some m => (m.key, m.value)
+  | none => ([], [])
+
+/-- a key the /show handler always asks for in addition (normally absent) -/
+def absentKey : Bytes := b "zz-absent"
+
+/-- the keys the /show handler of the harness asks the keyed readers for: the keys of the script
+    (flash keys, input names), the keys of what it sees through the list readers, `absentKey`;
+    first occurrence only -/
+def queryKeys (scriptKeys : List Bytes) (seen : List Msg) : List Bytes :=
+  (scriptKeys ++ (seen.filter (!·.old)).map (·.key) ++ (seen.filter (·.old)).map (·.key) ++ [absentKey]).eraseDups
+
+def renderKeyedEntry (k : Bytes) (m : Bytes × Bytes × Nat) (o : Bytes × Bytes) : String :=
+  s!"{hx k}:{hx m.1}.{hx m.2.1}.{m.2.2}:{hx o.1}.{hx o.2}"
+
+/-- `key:Message(key):OldInput(key)` for every queried key, given the two readers -/
+def renderKeyed (keys : List Bytes) (msg : Bytes → Bytes × Bytes × Nat) (old : Bytes → Bytes × Bytes) : String :=
+  ",".intercalate (keys.map fun k => renderKeyedEntry k (msg k) (old k))
+
+/-- the keyed part of the observation the specification expects -/
+def expectedKeyed (scriptKeys : List Bytes) (expected : List Msg) : String :=
+  renderKeyed (queryKeys scriptKeys expected) (specMessage expected) (specOldInput expected)
+
 /-- memory budget of one request: a constant for the server's own per-connection work plus a
     multiple of the cookie length -/
 def allocBudget (cookieLen : Nat) : Nat := 65536 + 64 * cookieLen
@@ -88,12 +127,16 @@ structure ObsConforming where
   seen2 : String
   c3 : Option Bytes
   seen3 : String
+  /-- keyed readers in request 2 / 3 -/
+  keyed2 : String := ""
+  keyed3 : String := ""
 
-def specConforming (flash old : List Msg) (o : ObsConforming) : Option String :=
+def specConforming (flash old : List Msg) (o : ObsConforming) (scriptKeys : List Bytes := []) : Option String :=
   let expected := flash ++ old
   if expected = [] then
     if o.issued.isSome then some "no-messages-no-cookie"
     else if o.seen2 ≠ "-" ∨ o.seen3 ≠ "-" then some "no-cookie-none"
+    else if o.keyed2 ≠ expectedKeyed scriptKeys [] ∨ o.keyed3 ≠ expectedKeyed scriptKeys [] then some "keyed-readers"
     else none
   else
     match o.issued with
@@ -104,8 +147,10 @@ def specConforming (flash old : List Msg) (o : ObsConforming) : Option String :=
       else if !wireSafe v then some "wire-safe"
       else if o.c2 ≠ some v then some "client-returns-value"
       else if o.seen2 ≠ renderSeen expected then some "delivered"
+      else if o.keyed2 ≠ expectedKeyed scriptKeys expected then some "keyed-readers"
       else if o.c3.isSome then some "expired"
       else if o.seen3 ≠ "-" then some "once"
+      else if o.keyed3 ≠ expectedKeyed scriptKeys [] then some "keyed-readers"
       else none
 
 /-- verbatim-copying client -/
@@ -116,12 +161,15 @@ structure ObsTransparent where
   exp2 : Bool
   st3 : Nat
   seen3 : String
+  keyed2 : String := ""
+  keyed3 : String := ""
 
-def specTransparent (flash old : List Msg) (o : ObsTransparent) : Option String :=
+def specTransparent (flash old : List Msg) (o : ObsTransparent) (scriptKeys : List Bytes := []) : Option String :=
   let expected := flash ++ old
   if expected = [] then
     if o.issued.isSome then some "no-messages-no-cookie"
     else if o.seen2 ≠ "-" ∨ o.seen3 ≠ "-" ∨ o.exp2 then some "no-cookie-none"
+    else if o.keyed2 ≠ expectedKeyed scriptKeys [] ∨ o.keyed3 ≠ expectedKeyed scriptKeys [] then some "keyed-readers"
     else none
   else
     match o.issued with
@@ -130,8 +178,10 @@ def specTransparent (flash old : List Msg) (o : ObsTransparent) : Option String 
       if (parse v).map renderSeen ≠ some (renderSeen expected) then some "encode-faithful"
       else if !transparentSafe v then some "wire-safe"
       else if o.st2 ≠ 200 ∨ o.seen2 ≠ renderSeen expected then some "delivered"
+      else if o.keyed2 ≠ expectedKeyed scriptKeys expected then some "keyed-readers"
       else if !o.exp2 then some "expired"
       else if o.st3 ≠ 200 ∨ o.seen3 ≠ "-" then some "once"
+      else if o.keyed3 ≠ expectedKeyed scriptKeys [] then some "keyed-readers"
       else none
 
 /-- one request of a decode history -/
@@ -141,6 +191,8 @@ structure ObsStep where
   msgs : String
   exp : Bool
   alloc : Nat
+  /-- keyed readers, asked for every key the list readers showed plus `absentKey` -/
+  keyed : String := ""
 
 def specStep (sent : Bytes) (o : ObsStep) : Option String :=
   if o.status ≠ 200 then
@@ -152,6 +204,7 @@ def specStep (sent : Bytes) (o : ObsStep) : Option String :=
     | some ck =>
       if o.msgs ≠ renderSeen (expectedSeen ck) then
         (if (parse ck).isNone then some "malformed-yields-none" else some "decode")
+      else if o.keyed ≠ expectedKeyed [] (expectedSeen ck) then some "keyed-readers"
       else if o.exp ≠ (ck ≠ []) then some "expired"
       else if o.alloc > allocBudget sent.length then some "alloc-linear"
       else none
